@@ -14,6 +14,7 @@ import numpy as np
 from ..lib import core
 from ..lib.core import Failure, Disagreement
 from ..extract import compression as _ex
+from ..extract import datasetshape as _ex2
 
 PROP = "C01"
 LEAN_MODULE = "NixModel.Props.C01"
@@ -66,7 +67,9 @@ TEXTS = ["", "a", " ", "abc", "äöü", "ß", "€", "日本語", "😀", "é",
 
 
 def extract(repo):
-    return _ex.extract(repo)
+    out = dict(_ex.extract(repo))
+    out.update(_ex2.extract(repo))
+    return out
 
 
 # ---------------------------------------------------------------------------------------
